@@ -866,3 +866,43 @@ Proof.
   rewrite Z.geb_leb. destruct (Z.leb_spec (slen (chop (nthl lines i))) (o + dir)); xstep; [reflexivity|].
   rewrite wrap_I32_id by exact Iod. rewrite (store_cell m bo o _ Ho). xstep. reflexivity.
 Qed.
+
+(* ------------------------------------------------------------------ vi.c: vi_cnt (the saturated count, fix 164b6b4) *)
+Definition vi_cnt_m (a1 a2 : Z) : Z :=
+  let n := (if a1 =? 0 then 1 else a1) * (if a2 =? 0 then 1 else a2) in
+  if (0 <? n) && (n <? 1073741824) then n else 1073741824.
+Lemma wrap_I64_id' z : -9223372036854775808 <= z <= 9223372036854775807 -> wrap I64 z = z.
+Proof.
+  intro H. unfold wrap. cbn [ity_bits ity_signed andb].
+  change (2 ^ 64) with 18446744073709551616. change (2 ^ (64 - 1)) with 9223372036854775808.
+  destruct (Z.leb_spec 9223372036854775808 (z mod 18446744073709551616)) as [L|L].
+  - assert (z < 0) by (destruct (Z.lt_ge_cases z 0); [assumption|rewrite Z.mod_small in L by lia; lia]).
+    rewrite <- (Z.mod_add z 1 18446744073709551616) by lia. rewrite Z.mod_small by lia. lia.
+  - assert (0 <= z) by (destruct (Z.lt_ge_cases z 0); [|assumption]; exfalso;
+      rewrite <- (Z.mod_add z 1 18446744073709551616) in L by lia; rewrite Z.mod_small in L by lia; lia).
+    apply Z.mod_small. lia.
+Qed.
+Lemma chk_I64' z : -9223372036854775808 <= z <= 9223372036854775807 -> chk I64 z = Ok z.
+Proof.
+  intro H. unfold chk, in_range, ity_min, ity_max, ity_signed, ity_bits.
+  change (- 2 ^ (64 - 1)) with (-9223372036854775808). change (2 ^ (64 - 1) - 1) with 9223372036854775807.
+  destruct (Z.leb_spec (-9223372036854775808) z); [|lia]. destruct (Z.leb_spec z 9223372036854775807); [|lia]. reflexivity.
+Qed.
+Theorem tr_vi_cnt m a1 a2 d fuel : cell_at m G_vi_arg1 a1 -> cell_at m G_vi_arg2 a2 -> i32 a1 -> i32 a2 ->
+  callf cprog fuel (S d) F_vi_cnt [] m = Ok (VInt (vi_cnt_m a1 a2), m).
+Proof.
+  intros H1 H2 I1 I2. unfold i32 in *. enter F_vi_cnt cf_vi_cnt. xstep. unfold vi_cnt_m.
+  rewrite (load_cell m _ _ H1). xstep. rewrite !(wrap_I32_id a1) by lia.
+  destruct (Z.eqb_spec a1 0) as [E1|E1]; cbn [negb]; xstep;
+    [|rewrite (load_cell m _ _ H1); xstep; rewrite !(wrap_I32_id a1) by lia];
+    rewrite (load_cell m _ _ H2); xstep; rewrite !(wrap_I32_id a2) by lia;
+    (destruct (Z.eqb_spec a2 0) as [E2|E2]; cbn [negb]; xstep;
+     [|rewrite (load_cell m _ _ H2); xstep; rewrite !(wrap_I32_id a2) by lia]);
+    rewrite !wrap_I64_id' by lia;
+    match goal with |- context [chk I64 (?x * ?y)] => rewrite (chk_I64' (x * y)) by nia end; xstep;
+    rewrite (chk_I32 (Z.shiftl 1 30)) by (cbn; lia); xstep;
+    change (Z.shiftl 1 30) with 1073741824; rewrite !wrap_I64_id' by lia;
+    match goal with |- context [0 <? ?n] => destruct (Z.ltb_spec 0 n); xstep; [|reflexivity] end;
+    match goal with |- context [?n <? 1073741824] => destruct (Z.ltb_spec n 1073741824); xstep; [|reflexivity] end;
+    rewrite wrap_I32_id by lia; reflexivity.
+Qed.
